@@ -12,8 +12,8 @@ import (
 	"sync"
 
 	"github.com/akalin/gopar/par1"
-	"github.com/klauspost/cpuid/v2"
 	"github.com/akalin/gopar/par2"
+	"github.com/klauspost/cpuid/v2"
 
 	"verifharness/internal/core"
 	"verifharness/internal/scen"
